@@ -172,7 +172,9 @@ pub fn gen_dir(t: &mut Tape, cfg: &TreeCfg, depth: u32, skipped_undecided: &mut 
         } else if roll < 7 && depth < cfg.max_depth {
             let name = t.pick(DIR_NAMES).to_string();
             let children = gen_dir(t, cfg, depth + 1, skipped_undecided);
-            if t.chance(40) {
+            // (a symbolic link never gets a name that looks like a source file: a walker that does not
+            // follow links would try to read it)
+            if t.chance(40) && !name.ends_with(".sol") {
                 (name, "directory", Kind::Link(children))
             } else {
                 (name, "directory", Kind::Dir(children))
